@@ -16,7 +16,7 @@ RULE = (
     "possibly non-square shape, 1-2 leading axes, and a pool of 2-3 operands over that type set, each built by a drawn history: insertion order of "
     "the types, construction method (dict constructor / append one by one / concat of two halves / from_vector on a template), and a chain of round "
     "trips (copy, jax.jit identity, jax.vmap identity, tree_flatten/unflatten). A program of <= 10 steps applies add, sub, scalar multiply, division by a power "
-    "of two, further round trips and re-orderings to pool entries (results re-enter the pool); after every step each block of the result must equal "
+    "of two, further round trips, re-orderings and in-place mutations (append onto an existing block, __setitem__) to pool entries (results re-enter the pool); after every step each block of the result must equal "
     "the model's block of the same type exactly. == must be True for equal models in any order and False after perturbing one entry; operands with a "
     "different type set, D or torus flags must be rejected by + and - and unequal under ==. Non-trivial: a binary operation whose operands' storage "
     "orders differ; distinct key = (type set, orders, histories, program)."
@@ -63,13 +63,39 @@ def draw_case(data, tier):
     nsteps = data.draw(st.integers(1, 6 if tier == "quick" else 10), label="nsteps")
     prog = []
     npool = nops
+    # symbolic model: channel counts per type of every pool entry (in-place growth changes them; + and - need equal shapes)
+    sym = [[c for _, c in sig] for _ in range(nops)]
     for step_no in range(nsteps):
-        op = data.draw(st.sampled_from(["add", "sub", "add", "sub", "mul", "div", "roundtrip", "reorder"]), label="op")
+        op = data.draw(st.sampled_from(["add", "sub", "add", "sub", "mul", "div", "roundtrip", "reorder", "append_inplace", "setitem_inplace"]), label="op")
         i = data.draw(st.integers(0, npool - 1), label="i")
         if step_no == 0:  # the first step always combines the two independently built operands
             prog.append({"op": data.draw(st.sampled_from(["add", "sub"]), label="first_op"), "i": 0, "j": 1})
+            sym.append(list(sym[0]))
             npool += 1
             continue
+        if op in ("append_inplace", "setitem_inplace"):
+            ti = data.draw(st.integers(0, len(sig) - 1), label="type_index")
+            grow = data.draw(st.integers(1, 2), label="grow") if op == "append_inplace" else 0
+            sandwich = data.draw(st.booleans(), label="use_mutate_use")
+            if sandwich:  # use the object, mutate it in place, use it again (stale per-object caches show here)
+                prog.append({"op": data.draw(st.sampled_from(["mul", "div"]), label="before"), "i": i, "s": 2})
+                sym.append(list(sym[i]))
+                npool += 1
+            prog.append({"op": op, "i": i, "type_index": ti, "grow": grow, "seed": data.draw(st.integers(0, 9999), label="mseed")})
+            sym[i] = list(sym[i])
+            sym[i][ti] += grow
+            if sandwich:
+                prog.append({"op": data.draw(st.sampled_from(["mul", "div"]), label="after"), "i": i, "s": -2})
+                sym.append(list(sym[i]))
+                npool += 1
+            continue  # the mutation itself adds no pool entry
+        if op in ("add", "sub"):
+            partners = [j for j in range(npool) if sym[j] == sym[i]]
+            prog.append({"op": op, "i": i, "j": data.draw(st.sampled_from(partners), label="j")})
+            sym.append(list(sym[i]))
+            npool += 1
+            continue
+        sym.append(list(sym[i]))
         if op in ("add", "sub"):
             prog.append({"op": op, "i": i, "j": data.draw(st.integers(0, npool - 1), label="j")})
         elif op == "mul":
@@ -167,6 +193,28 @@ def run_case(case):
         op = step["op"]
         a, ma = pool[step["i"]], models[step["i"]]
         evals += 1
+        if op in ("append_inplace", "setitem_inplace"):
+            # in-place mutation of an operand that may already have been used in arithmetic
+            t = types[step["type_index"]]
+            rngm = np.random.default_rng(step["seed"])
+            cur = ma[t]
+            if op == "append_inplace":
+                shp = list(cur.shape)
+                shp[nlead - 1] = step["grow"]
+                extra = rngm.integers(-4, 5, size=shp).astype(np.int64)
+                a.append(t[0], t[1], jnp.asarray(extra, dtype=jnp.float32), axis=nlead - 1)
+                new = np.concatenate([cur, extra], axis=nlead - 1)
+            else:
+                new = rngm.integers(-4, 5, size=cur.shape).astype(np.int64)
+                a[t] = jnp.asarray(new, dtype=jnp.float32)
+            upd = dict(ma)
+            upd[t] = new
+            models[step["i"]] = upd
+            labels.append(op)
+            v = _compare(a, models[step["i"]], f"{op}:step {si}")
+            if v:
+                return result(v, nontrivial, key, labels, evals)
+            continue
         if op in ("add", "sub"):
             b, mb = pool[step["j"]], models[step["j"]]
             differ = list(a.keys()) != list(b.keys())
